@@ -443,6 +443,10 @@ func TestVerifC02Lifecycle(t *testing.T) {
 		undecided += c02lPrewrite(t, run, node, src, tgt, run.Rand("prewrite"), run.Pick(40, 300))
 	}
 
+	if !stop && run.Violations() < 10 {
+		undecided += c02lReconnect(t, run, node, src, tgt, run.Pick(4, 24))
+	}
+
 	if c02lAwaitLifecycleEnd() {
 		leaked := snap.Leaked([]string{"session/tunnel.(*Bridge).CopyWithControl", "session/tunnel.(*Bridge).Start"}, nil, 2*time.Second)
 		if len(leaked) > 0 {
@@ -458,6 +462,7 @@ func TestVerifC02Lifecycle(t *testing.T) {
 	run.Floor("complete_transfers", int64(n/3))
 	run.Floor("bridge_registered", int64(n*3/4))
 	run.Floor("prewrite_ack_then_exact_stream", int64(run.Pick(30, 220)))
+	run.Floor("reconnect_source_reattached", int64(run.Pick(4, 24)))
 	run.Floor("cases_limit_none", 3)
 	run.Floor("cases_limit_burst<32K", 3)
 	run.Floor("cases_limit_64K", 3)
@@ -657,6 +662,198 @@ func c02lPrewrite(t *testing.T, run *vk.Run, node *miniNode, src, tgt *miniClien
 		tc.sc.Close()
 		run.Eval(1)
 		run.Distinct(fmt.Sprintf("prewrite|pre=%d|post=%d", pre, post))
+	}
+	return undecided
+}
+
+
+// ---------------------------------------------------------------------------
+// "reconnect": the source end re-attaches with the same tunnel id
+// ---------------------------------------------------------------------------
+
+// c02lIDConn is a server-side transport whose reader exposes the authenticated client
+// id (GetClientID), which is what handleExistingBridge needs to recognise a TunnelOpen
+// for an existing bridge as a *source* reconnect (-> Bridge.SetSourceConnection). No
+// transport in the tree exposes it, so on the in-tree transports that branch is not
+// reachable; this double makes it reachable on the mini-server.
+type c02lIDConn struct {
+	*vk.BufConn
+	id int64
+}
+
+func (c *c02lIDConn) GetClientID() int64 { return c.id }
+
+// c02lBridgeParked: every goroutine inside runBridgeLifecycle / the bridge copy loops is
+// parked in a transport read or waiting for such a goroutine, in three stable dumps.
+func c02lBridgeParked() (bool, string) {
+	prev := ""
+	for i := 0; i < 3; i++ {
+		var lines []string
+		io := 0
+		for _, g := range vk.Goroutines() {
+			st := g.Stack
+			if !strings.Contains(st, ").runBridgeLifecycle") && !strings.Contains(st, "tunnel.(*Bridge).CopyWithControl") {
+				continue
+			}
+			switch {
+			case strings.Contains(st, "verifkit.(*BufConn).Read") && !strings.Contains(st, "time.Sleep") && !strings.Contains(st, "rate.(*Limiter)"):
+				io++
+				lines = append(lines, g.ID+"/io")
+			case strings.Contains(st, "sync.(*WaitGroup).Wait"):
+				lines = append(lines, g.ID+"/wgwait")
+			default:
+				return false, g.State
+			}
+		}
+		sig := strings.Join(lines, ",")
+		if io == 0 || (i > 0 && sig != prev) {
+			return false, sig
+		}
+		prev = sig
+		time.Sleep(100 * time.Millisecond)
+	}
+	return true, prev
+}
+
+func c02lReadExactly(c *vk.BufConn, want []byte) bool {
+	got := make([]byte, 0, len(want))
+	buf := make([]byte, 4096)
+	deadline := time.Now().Add(10 * time.Second)
+	for len(got) < len(want) && time.Now().Before(deadline) {
+		c.SetReadDeadline(time.Now().Add(200 * time.Millisecond))
+		k, err := c.Read(buf)
+		got = append(got, buf[:k]...)
+		if err != nil && k == 0 {
+			if te, ok := err.(interface{ Timeout() bool }); ok && te.Timeout() {
+				continue
+			}
+			break
+		}
+	}
+	c.SetReadDeadline(time.Time{})
+	return bytes.Equal(got, want)
+}
+
+func c02lReconnect(t *testing.T, run *vk.Run, node *miniNode, src, tgt *miniClient, n int) (undecided int) {
+	for i := 0; i < n; i++ {
+		if run.Violations() >= 10 {
+			return
+		}
+		if !c02lAwaitLifecycleEnd() {
+			run.Count("watchdog", 1)
+			return undecided + 1
+		}
+		closer := []string{"tgt", "src2"}[i%2]
+		cs := map[string]any{"id": i, "closes_after_source_reconnect": closer}
+		run.Case("lifecycle-reconnect", cs)
+		tid := fmt.Sprintf("c02-rec-%d", i)
+		mapping, err := node.CC.CreatePortMapping(&models.PortMapping{
+			ListenClientID: src.ClientID, TargetClientID: tgt.ClientID, Protocol: models.ProtocolTCP,
+			SourcePort: 18080, TargetHost: "10.1.2.3", TargetPort: 3306, SecretKey: "mk-" + tid, Status: models.MappingStatusActive,
+		})
+		if err != nil || mapping == nil {
+			t.Fatalf("c02: mapping setup failed: %v", err)
+		}
+		open := func(c *miniClient, id int64, secret string) bool {
+			if ok, _ := c.Login(id, secret, "tunnel"); !ok {
+				return false
+			}
+			ack, _ := c02lOpen(c, mapping.ID, tid, mapping.SecretKey)
+			return ack != nil && ack.Success
+		}
+		sc1 := node.MustConnect("")
+		tc := node.MustConnect("")
+		if !open(sc1, src.ClientID, src.Secret) || !open(tc, tgt.ClientID, tgt.Secret) {
+			t.Fatalf("c02: reconnect setup: tunnel open failed")
+		}
+		ping, pong := vk.Pattern(uint64(i), 0, 3000), vk.Pattern(uint64(i)+99, 0, 3000)
+		sc1.hc.Write(ping)
+		tc.hc.Write(pong)
+		if !c02lReadExactly(tc.hc, ping) || !c02lReadExactly(sc1.hc, pong) {
+			run.Count("watchdog", 1)
+			return undecided + 1
+		}
+		// the source reconnects: same tunnel id, new transport that exposes its client id
+		k := miniAddrSeq.Add(1)
+		ssrv, shc := vk.BufPipe(fmt.Sprintf("10.%d.%d.%d:40000", (k>>16)&255, (k>>8)&255, k&255), "127.0.0.1:7000")
+		idc := &c02lIDConn{BufConn: ssrv, id: src.ClientID}
+		stc, err := node.SM.AcceptConnection(idc, idc)
+		if err != nil {
+			t.Fatalf("c02: accept: %v", err)
+		}
+		sc2 := &miniClient{n: node, hc: shc, sc: ssrv, ConnID: stc.ID}
+		sc2.sp = stream.NewStreamProcessor(shc, shc, node.ctx)
+		node.mu.Lock()
+		node.clients = append(node.clients, sc2)
+		node.mu.Unlock()
+		if !open(sc2, src.ClientID, src.Secret) {
+			run.Count("reconnect_open_refused", 1)
+			sc1.hc.Close()
+			tc.hc.Close()
+			sc2.hc.Close()
+			continue
+		}
+		// is the new connection the tunnel's source end now? target bytes must arrive there
+		more := vk.Pattern(uint64(i)+7, 0, 2000)
+		tc.hc.Write(more)
+		if !c02lReadExactly(sc2.hc, more) {
+			// the reconnect was not treated as a source re-attach (or bytes went elsewhere):
+			// outside this scenario's precondition
+			run.Count("reconnect_not_a_source_reattach", 1)
+			sc1.hc.Close()
+			tc.hc.Close()
+			sc2.hc.Close()
+			continue
+		}
+		run.Count("reconnect_source_reattached", 1)
+		script := "target-closes-after-source-reattach"
+		other := sc2
+		if closer == "tgt" {
+			tc.hc.Close()
+		} else {
+			script = "new-source-closes-after-source-reattach"
+			other = tc
+			sc2.hc.Close()
+		}
+		// the old source transport sc1 is left alone (half-dead peer)
+		ended, hung, sig := false, false, ""
+		for p := 0; p < 40 && !ended && !hung; p++ {
+			if c02lLifecycleRunning() == 0 {
+				ended = true
+				break
+			}
+			time.Sleep(250 * time.Millisecond)
+			if p >= 2 {
+				hung, sig = c02lBridgeParked()
+			}
+		}
+		det := map[string]any{"case": cs, "tunnel_id": tid, "goroutines": sig,
+			"bridge_still_registered": node.SM.GetTunnelBridgeByMappingID(mapping.ID, 0) != nil,
+			"other_end_transport_closed_by_server": other.sc.IsClosed(), "old_source_transport_closed_by_server": sc1.sc.IsClosed()}
+		switch {
+		case ended:
+			if node.SM.GetTunnelBridgeByMappingID(mapping.ID, 0) != nil {
+				run.Violation("C02:lifecycle|bridge-still-registered|by=mapping", det)
+			} else if !other.sc.IsClosed() {
+				run.Violation("C02:closure|peer-conn-left-open|script="+script, det)
+			} else {
+				run.Count("reconnect_closure_ok", 1)
+			}
+		case hung:
+			det["what"] = "after a source reconnect (SetSourceConnection through handleExistingBridge) one current end closed; the source->target loop is parked in Read on the replaced transport, runBridgeLifecycle never finishes: the server keeps the tunnel"
+			run.Violation("C02:closure|bridge-hang|script="+script, det)
+		default:
+			run.Count("watchdog", 1)
+			undecided++
+		}
+		sc1.hc.Close()
+		sc2.hc.Close()
+		tc.hc.Close()
+		sc1.sc.Close()
+		ssrv.Close()
+		tc.sc.Close()
+		run.Eval(1)
+		run.Distinct("reconnect|" + closer)
 	}
 	return undecided
 }
